@@ -34,6 +34,10 @@ def enc_case(rng, i):
         ops.append("encode %d" % rng.choice([0, 1, 5000, 30000]))
     elif r < 0.75:
         ops.append("encode %d abort" % rng.choice([20000, 60000]))
+    if rng.random() < 0.35:
+        # the next stream with the same set-up: vorbis_analysis_init once more on this vorbis_info
+        for _ in range(rng.choice([1, 1, 3])):
+            ops.append("encode %d%s" % (rng.choice([0, 700, 5000]), rng.choice(["", "", " abort"])))
     ops += ["clear", "live"]
     return ("c15", ops)
 
